@@ -108,6 +108,20 @@ def run(ctx, res):
     events = events_for(ctx, res, cases)
     o = validate(ctx, res, events)
     res.add_trace(o)
+    # byte-level observation (monitoring, outside the specification): the same ABI driver under valgrind memcheck on a sample of histories
+    if not ctx.quick:
+        import subprocess
+        sample = cases[:150] + cases[ngen:ngen + 60]
+        vlib.write_ndjson(ctx.path("vg_cases.ndjson"), sample)
+        p = subprocess.run(["valgrind", "--quiet", "--error-exitcode=97", "--errors-for-leak-kinds=none", "--leak-check=no",
+                            vlib.HARNESS_BIN, "loader-child", ctx.path("vg_cases.ndjson"), ctx.path("vg_events.ndjson"), "0"],
+                           stdout=subprocess.PIPE, stderr=subprocess.STDOUT, text=True, timeout=3000)
+        res.extra["memcheck"] = {"histories": len(sample), "exit": p.returncode, "report": p.stdout[-1500:] if p.returncode else ""}
+        if p.returncode == 97:
+            res.items.append({"cls": "memcheck", "what": "valgrind memcheck reports an invalid read / write / free while replaying call histories through the ABI",
+                              "report": p.stdout[-3000:]})
+        elif p.returncode != 0:
+            raise vlib.ToolError("loader driver failed under valgrind: rc=%s %s" % (p.returncode, p.stdout[-500:]))
     res.traces = ngen + nrand
     res.evaluations = o.events
     res.distinct_nontrivial = ngen + nrand
@@ -125,7 +139,7 @@ def run(ctx, res):
     res.extra["trace_action_coverage"] = o.coverage
     res.extra["mc_loader_distinct_states"] = mc.distinct
     res.assumptions = ["memory safety is judged at the level of the ownership protocol (hook events); byte-level accesses "
-                       "are outside TLC's reach (see DESIGN.md section 6)",
+                       "are outside TLC's reach (see DESIGN.md section 6); the thorough tier additionally replays a sample of histories under valgrind memcheck",
                        "RESULT is read only after calls that set it, as the TypeScript wrapper does"]
 
 
